@@ -299,7 +299,7 @@ def print_mixture(mix, ext=True, mfmt=0):
     if not ext:
         return "."
     kind, x = mix
-    t = _no_trailing_dot(fmt_float(x, mfmt), False)
+    t = fmt_float(x, mfmt)  # every spelling, '.|1234.|' (the Mixture docstring's own example) included
     return ".|" + t + ("%" if kind == "pct" else "") + "|"
 
 
